@@ -55,7 +55,7 @@ func errorBursts(run *core.Run, tier string) {
 	}
 	rounds := 1200
 	if tier == "thorough" {
-		rounds = 12000
+		rounds = 4000
 	}
 	old := runtime.GOMAXPROCS(16)
 	defer runtime.GOMAXPROCS(old)
